@@ -240,6 +240,13 @@ impl QosPolicies {
     matches!(self.durability, Some(policy::Durability::Volatile))
   }
 
+  /// Does a Reader with these policies ask for samples that were written
+  /// before it appeared? Durability Volatile is the DDS default, so an unset
+  /// Durability means "no".
+  pub fn requests_historical_data(&self) -> bool {
+    !matches!(self.durability, None | Some(policy::Durability::Volatile))
+  }
+
   pub const fn presentation(&self) -> Option<policy::Presentation> {
     self.presentation
   }
